@@ -413,6 +413,26 @@ def d_constant_nodes(m):
 
 
 @_dev
+def d_output_listed_twice_annotated(m):
+    """One node output at two graph-output positions, carrying a quantization annotation."""
+    m.graph.output.add().CopyFrom(value_info("b", F(_shape_variants()[2])))
+    q = m.graph.quantization_annotation.add()
+    q.tensor_name = "b"
+    e = q.quant_parameter_tensor_names.add()
+    e.key, e.value = "SCALE_TENSOR", "w"
+
+
+@_dev
+def d_strings_attribute_not_utf8(m):
+    n = m.graph.node[0]
+    a = n.attribute.add()
+    a.name, a.type = "raw_strings", onnx.AttributeProto.STRINGS
+    a.strings.extend([b"\xff\xfe", b"ok"])
+    b = n.attribute.add()
+    b.name, b.type, b.s = "raw_string", onnx.AttributeProto.STRING, b"\xff\xfe"
+
+
+@_dev
 def d_value_info_without_type(m):
     m.graph.value_info.add().CopyFrom(value_info("a", None, "only a doc string"))
 
@@ -872,6 +892,9 @@ def _names_ok(m):
     io = {i.name for i in m.graph.input} | {o.name for o in m.graph.output}
     if io & set(vis):
         return False  # a second, conflicting descriptor for a graph input/output is not well formed
+    qa = [q.tensor_name for q in m.graph.quantization_annotation]
+    if len(qa) != len(set(qa)):
+        return False  # two annotations for one tensor (two deviations annotating the same value) is not well formed
     ins = [i.name for i in m.graph.input]
     outs = [o.name for o in m.graph.output]
     opsets = {}
